@@ -1,4 +1,5 @@
 import PdtVerif.Lemmas.Estimators
+import PdtVerif.Lemmas.EstimatorsCount
 /-!
 # C19 — estimators are unbiased where promised; relaxed distributions are consistent
 
@@ -240,6 +241,103 @@ theorem C19_st_value (fbs : List (Dual α)) :
     (stEstimate fbs).val = (fbs.map (·.val)).sum / (fbs.length : α) := by
   simp [stEstimate, Dual.mean_val]
 
+/-! ### RELAX: mean of value AND gradient over the whole sample space
+
+`RelaxEstimator` draws `z` (through `u`), thresholds it to `b`, draws `z̃ | b` (through `v`) and
+combines `f(b)`, `c(z)`, `c(z̃)`, `log P(b)`.  The *joint* sample space of one Monte-Carlo draw is
+abstracted as a finite list `Ω` of `RelaxSample`s (what the estimator sees of one draw, every
+quantity a dual number) with weights `w` summing to one — a quadrature grid over `(u, v)`, or any
+finitely supported law.  `N` i.i.d. draws are `tuples N Ω`, as for the other estimators. -/
+
+theorem relaxEstimate_grad (ss : List (RelaxSample α)) (h : (ss.length : α) ≠ 0) :
+    (relaxEstimate ss).grad
+      = (ss.map fun s => (s.f.grad - s.cvzcond.grad + s.cvz.grad)
+          + (s.f.val - s.cvzcond.val) * s.logp.grad).sum / (ss.length : α) := by
+  simp only [relaxEstimate, Dual.mean_grad, List.map_map, Function.comp_def,
+    zipWith_map_map, List.length_map, Dual.add_grad, Dual.sub_grad, Dual.detach_grad, Dual.mul_grad,
+    Dual.detach_val, Dual.sub_val, zero_mul, zero_add, sub_zero]
+  rw [List.sum_map_add, List.map_const', List.sum_replicate, nsmul_eq_mul, List.sum_map_add]
+  field_simp
+  rw [List.sum_map_add, List.sum_map_add]
+
+/-- **C19_relax_mean** (closed form, no hypothesis on the control variate): the average over `Ω^N`
+of the value and of the gradient returned by `RelaxEstimator`. -/
+theorem C19_relax_mean (w : RelaxSample α → α) (Ω : List (RelaxSample α)) (hw : (Ω.map w).sum = 1)
+    (N : Nat) (hN : (N : α) ≠ 0) :
+    meanOver w N Ω relaxEstimate
+      = ⟨(Ω.map fun s => w s * (s.f.val - s.cvzcond.val + s.cvz.val)).sum,
+         (Ω.map fun s => w s * ((s.f.grad - s.cvzcond.grad + s.cvz.grad)
+            + (s.f.val - s.cvzcond.val) * s.logp.grad)).sum⟩ := by
+  apply meanOver_additive w Ω hw N hN
+  intro t ht
+  have hl := length_of_mem_tuples Ω N t ht
+  have hN' : (t.length : α) ≠ 0 := by rw [hl]; exact hN
+  apply Dual.ext'
+  · rw [relaxEstimate_val t hN', hl]
+  · rw [relaxEstimate_grad t hN', hl]
+
+/-- `Σ w (a − c̃ + c)` and `Σ w ((fg − c̃g + cg) + (fv − c̃v)·l)` split into their means -/
+theorem sum_relax_split (Ω : List (RelaxSample α)) (w : RelaxSample α → α) :
+    (Ω.map fun s => w s * ((s.f.grad - s.cvzcond.grad + s.cvz.grad)
+        + (s.f.val - s.cvzcond.val) * s.logp.grad)).sum
+      = (Ω.map fun s => w s * (s.f.grad + s.f.val * s.logp.grad)).sum
+        - (Ω.map fun s => w s * (s.cvzcond.grad + s.cvzcond.val * s.logp.grad)).sum
+        + (Ω.map fun s => w s * s.cvz.grad).sum := by
+  induction Ω with
+  | nil => simp
+  | cons x xs ih => simp only [List.map_cons, List.sum_cons, ih]; ring
+
+/-- **C19_relax_grad**: RELAX is unbiased in value AND gradient once the control-variate terms have
+the means the construction promises — `E c(z̃) = E c(z)` (`hval`; `z̃ | b` is distributed as `z | b`)
+and `∇ E c(z̃) = ∇ E c(z)` with the left side as score-function + pathwise estimate
+`E[c(z̃)·∇log P(b) + ∇c(z̃)]` and the right side pathwise `E[∇c(z)]` (`hgrad`).  Then the mean over
+`Ω^N` of the returned dual number is `(E f, E[∇f + f·∇log P(b)])`: exactly the mean of
+`DirectEstimator` without control variate, which `C19_direct` / `score_identity` identify with the
+exact expectation and its exact gradient. -/
+theorem C19_relax_grad (w : RelaxSample α → α) (Ω : List (RelaxSample α)) (hw : (Ω.map w).sum = 1)
+    (N : Nat) (hN : (N : α) ≠ 0)
+    (hval : (Ω.map fun s => w s * s.cvzcond.val).sum = (Ω.map fun s => w s * s.cvz.val).sum)
+    (hgrad : (Ω.map fun s => w s * (s.cvzcond.grad + s.cvzcond.val * s.logp.grad)).sum
+              = (Ω.map fun s => w s * s.cvz.grad).sum) :
+    meanOver w N Ω relaxEstimate
+      = ⟨(Ω.map fun s => w s * s.f.val).sum,
+         (Ω.map fun s => w s * (s.f.grad + s.f.val * s.logp.grad)).sum⟩ := by
+  rw [C19_relax_mean w Ω hw N hN]
+  apply Dual.ext'
+  · show (Ω.map fun s => w s * (s.f.val - s.cvzcond.val + s.cvz.val)).sum = _
+    have e : (Ω.map fun s => w s * (s.f.val - s.cvzcond.val + s.cvz.val)).sum
+        = (Ω.map fun s => w s * s.f.val).sum - (Ω.map fun s => w s * s.cvzcond.val).sum
+          + (Ω.map fun s => w s * s.cvz.val).sum := by
+      clear hw hval hgrad
+      induction Ω with
+      | nil => simp
+      | cons x xs ih => simp only [List.map_cons, List.sum_cons, ih]; ring
+    rw [e, hval]; ring
+  · show (Ω.map fun s => w s * ((s.f.grad - s.cvzcond.grad + s.cvz.grad)
+        + (s.f.val - s.cvzcond.val) * s.logp.grad)).sum = _
+    rw [sum_relax_split, hgrad]; ring
+
+/-- **C19_relax_grad_exact**: the same, with the score-function hypothesis spelled out: if moreover
+`f` carries no gradient of its own and `E[f(b)·∇log P(b)] = g` (the exact gradient of `E f`, by
+`score_identity` on the discrete marginal), the mean gradient of RELAX is `g`. -/
+theorem C19_relax_grad_exact (w : RelaxSample α → α) (Ω : List (RelaxSample α)) (hw : (Ω.map w).sum = 1)
+    (N : Nat) (hN : (N : α) ≠ 0) (g : α)
+    (hval : (Ω.map fun s => w s * s.cvzcond.val).sum = (Ω.map fun s => w s * s.cvz.val).sum)
+    (hgrad : (Ω.map fun s => w s * (s.cvzcond.grad + s.cvzcond.val * s.logp.grad)).sum
+              = (Ω.map fun s => w s * s.cvz.grad).sum)
+    (hf : ∀ s ∈ Ω, s.f.grad = 0)
+    (hscore : (Ω.map fun s => w s * (s.f.val * s.logp.grad)).sum = g) :
+    meanOver w N Ω relaxEstimate = ⟨(Ω.map fun s => w s * s.f.val).sum, g⟩ := by
+  rw [C19_relax_grad w Ω hw N hN hval hgrad]
+  apply Dual.ext'
+  · rfl
+  · show (Ω.map fun s => w s * (s.f.grad + s.f.val * s.logp.grad)).sum = g
+    rw [← hscore]
+    congr 1
+    apply List.map_congr_left
+    intro s hs
+    rw [hf s hs, zero_add]
+
 end Estimators
 
 /-! ## relaxed distributions over ℝ -/
@@ -340,6 +438,26 @@ theorem C19_csample_reparam (p v : ℝ) (hp : 0 < p) (hp1 : p < 1) (hv : 0 < v) 
     rw [e2]
     field_simp
 
+
+/-- **C19_csample_spec**: the specification `lbCsampleSpec` (stated in the distribution's own
+`logits`) is the code's formula at the exact probability `p = σ(logits)`, for every `b`; and
+(`eps = 0`) it is the relaxed sample `z(u)` of THIS distribution at the uniform point of the region
+of `b`: `u = 1 − p + p v` for `b = 1`, `u = (1 − p)(1 − v)` for `b = 0`.  The code evaluates the
+formula at `clamp_probs(probs)`: equal while `eps ≤ p ≤ 1 − eps` (`C19_csampleC_eq`), different
+beyond (finding `C19.relaxed.csample_clamped_probs`). -/
+theorem C19_csample_spec (eps logit v b : ℝ) :
+    lbCsampleSpec TR eps logit v b = lbCsample TR eps (TR.sigmoid logit) v b := by
+  simp only [lbCsampleSpec, lbCsample, lb_sigmoid_neg]
+
+theorem C19_csample_spec_reparam (logit v : ℝ) (hv : 0 < v) (hv1 : v < 1) :
+    lbCsampleSpec TR 0 logit v 1
+        = lbRsample TR logit (1 - TR.sigmoid logit + TR.sigmoid logit * v) ∧
+    lbCsampleSpec TR 0 logit v 0 = lbRsample TR logit ((1 - TR.sigmoid logit) * (1 - v)) := by
+  obtain ⟨hp, hp1⟩ := lb_sigmoid_pos logit
+  have h := C19_csample_reparam (TR.sigmoid logit) v hp hp1 hv hv1
+  rw [lb_logit_sigmoid] at h
+  rw [C19_csample_spec, C19_csample_spec]
+  exact h
 
 /-! ## categorical relaxation -/
 section Gumbel
@@ -608,6 +726,47 @@ theorem C19_enum_vocab (n V : Nat) (hV : 0 < V) :
 theorem C19_enum_vocab_length (n V : Nat) : (enumVocab n V).length = V ^ n := by
   simp [enumVocab]
 
+/-- **C19_enum_card_length**: `enumerate_binary_sequences_with_cardinality(n, k)` has exactly
+`C(n, k)` rows (all `n`, `k`; `0` rows when `k > n`). -/
+theorem C19_enum_card_length (n k : Nat) : (enumCard n k).length = Nat.choose n k :=
+  enumCard_length n k
+
+/-- **C19_enum_card_rows**: the rows are pairwise distinct binary vectors of length `n`, each with
+exactly `k` ones — and every such vector is a row. -/
+theorem C19_enum_card_rows (n k : Nat) :
+    (enumCard n k).Nodup ∧
+    ∀ row : List Nat, row ∈ enumCard n k ↔
+      (row.length = n ∧ (∀ d ∈ row, d = 0 ∨ d = 1) ∧ row.count 1 = k) := by
+  obtain ⟨hnd, hmem⟩ := C19_enum_vocab n 2 (by norm_num)
+  refine ⟨hnd.filter _, ?_⟩
+  intro row
+  simp only [enumCard, enumBinary, List.mem_filter, hmem, beq_iff_eq, ← List.sum_eq_foldr]
+  constructor
+  · rintro ⟨⟨hl, hd⟩, hs⟩
+    refine ⟨hl, fun d hd' => by have := hd d hd'; omega, ?_⟩
+    rw [count_one_eq_sum row hd, hs]
+  · rintro ⟨hl, hd, hc⟩
+    have hd2 : ∀ d ∈ row, d < 2 := fun d hd' => by rcases hd d hd' with h | h <;> omega
+    exact ⟨⟨hl, hd2⟩, by rw [← count_one_eq_sum row hd2, hc]⟩
+
+/-- **C19_srswor_support_prob**: `|support| · P = 1` for the SRSWOR distribution — the number of
+rows of `enumerate_support` (the cardinality filter) times `exp(log_prob)` (from the log-factorial
+table, with its clamped indices) is exactly one, for all `given ≤ total ≤ out_size`, `out_size ≥ 1`;
+i.e. the distribution is uniform over the `C(total, given)` subsets.  Exact arithmetic; the code's
+float32 logs are compared with this value to 1e-5 by the harness. -/
+theorem C19_srswor_support_prob (outSize total given : Nat) (hg : given ≤ total)
+    (ht : total ≤ outSize) (ho : 0 < outSize) :
+    ((enumCard total given).length : Rat) * srsworProb outSize total given = 1 := by
+  rw [C19_enum_card_length, srsworProb, srsworPartition_eq outSize total given hg ht ho]
+  have h := Nat.choose_mul_factorial_mul_factorial hg
+  have hq : ((Nat.choose total given : Nat) : Rat) * (given.factorial : Rat) * ((total - given).factorial : Rat)
+      = (total.factorial : Rat) := by exact_mod_cast h
+  have h1 : (given.factorial : Rat) ≠ 0 := by exact_mod_cast (Nat.factorial_pos given).ne'
+  have h2 : ((total - given).factorial : Rat) ≠ 0 := by exact_mod_cast (Nat.factorial_pos _).ne'
+  have h3 : (total.factorial : Rat) ≠ 0 := by exact_mod_cast (Nat.factorial_pos total).ne'
+  field_simp
+  linarith [hq]
+
 
 /-! ## non-vacuity: every theorem above has its hypotheses instantiated on a concrete input -/
 def exΩ : List (Pt Rat) :=
@@ -684,6 +843,27 @@ example : ∃ c, gClogProb TR ((List.range 2).map fun _ => Real.log (1/2)) ((Lis
     have : Real.exp (Real.log (1/2)) = 1/2 := Real.exp_log (by norm_num)
     rw [show List.range 2 = [0, 1] from rfl]
     simp only [List.map_cons, List.map_nil, List.sum_cons, List.sum_nil, this]; norm_num)
+example : lbThreshold (lbCsampleC TR (1/1000) 1 1 1) = 1 :=
+  C19_threshold_clamped _ _ _ _ (Or.inr rfl) (by norm_num) (by norm_num)
+example : lbThreshold (lbCsampleC TR (1/1000) 0 0 0) = 0 :=
+  C19_threshold_clamped _ _ _ _ (Or.inl rfl) (by norm_num) (by norm_num)
+example : (enumCard 4 2).length = 6 := by decide
+example : enumCard 3 2 = [[1, 1, 0], [1, 0, 1], [0, 1, 1]] := by decide
+example : ((enumCard 5 2).length : Rat) * srsworProb 6 5 2 = 1 :=
+  C19_srswor_support_prob 6 5 2 (by norm_num) (by norm_num) (by norm_num)
+example : srsworProb 6 5 2 = 1 / 10 := by
+  rw [srsworProb, srsworPartition_eq 6 5 2 (by norm_num) (by norm_num) (by norm_num)]
+  norm_num [Nat.factorial]
+
+/-- a two-point joint space on which the hypotheses of `C19_relax_grad` hold non-trivially
+(`c(z̃)` and `c(z)` differ pointwise, their means and gradient means agree) -/
+def exRelax : List (RelaxSample Rat) :=
+  [⟨⟨3, 0⟩, ⟨1, 0⟩, ⟨2, 0⟩, ⟨-1, -2⟩⟩, ⟨⟨5, 0⟩, ⟨3, 1⟩, ⟨2, 1⟩, ⟨-1, 2⟩⟩]
+example : meanOver (fun _ => (1 / 2 : Rat)) 2 exRelax relaxEstimate = ⟨4, 2⟩ := by
+  rw [C19_relax_grad_exact (fun _ => (1 / 2 : Rat)) exRelax (by norm_num [exRelax]) 2 (by norm_num) 2
+    (by norm_num [exRelax]) (by norm_num [exRelax]) (by simp [exRelax]) (by norm_num [exRelax])]
+  apply Dual.ext' <;> norm_num [exRelax]
+
 example : lbThreshold (lbCsample TR (1/100) (1/4) (1/2) 0) = 0 :=
   C19_threshold _ _ _ _ (Or.inl rfl) (by norm_num) (by norm_num) (by norm_num) (by norm_num) (by norm_num)
 
